@@ -25,6 +25,7 @@ func init() { subs["c17"] = c17 }
 
 func c17(c *Ctx) {
 	c17Merkle(c)
+	c17MerkleShapes(c)
 	dir, err := os.MkdirTemp("", "hx-c17-")
 	if err != nil {
 		panic(err)
